@@ -42,6 +42,7 @@ type Session struct {
 	Ending   string `json:"ending"`              // cclose | drop | sclose: how the client/server ends a connection that is still open
 	Await    bool   `json:"await"`               // after a frame that makes the server close, just wait for the close
 	SlowStop bool   `json:"slow_stop,omitempty"` // the sources' Stop() takes a moment (widens the window for concurrent closers)
+	Early    bool   `json:"early,omitempty"`     // no steps: CloseHijackedConnections races with the set-up of the connection
 	Gomax    int    `json:"-"`
 }
 
@@ -82,6 +83,7 @@ type Input struct {
 	Gen, N  int    // ev / end
 	Stopped []int  // sync: sources stopped so far
 	Want    []int  // sync: sources the specification says are stopped by now
+	May     []int  // sync: sources that ended by themselves (may or may not be stopped yet)
 	ID      int    // syncid
 }
 
@@ -110,6 +112,7 @@ type Observed struct {
 	Ending    string         `json:"ending"`              // await cclose drop sclose
 	Inputs    []Input        `json:"-"`
 	Elapsed   time.Duration  `json:"-"`
+	WireTime  time.Duration  `json:"-"`
 	Stats     map[string]int `json:"-"`
 	Spec      *spec          `json:"-"`
 }
@@ -142,6 +145,8 @@ type live struct {
 	execs   []ExecRec
 	sources map[int]*source
 	closed  bool // the client's read loop ended
+	closedAt time.Time
+	wireTime time.Duration // from before the dial until the read loop ended
 	code    int
 	slow    bool
 }
@@ -263,21 +268,21 @@ func registryLen(api *apifu.API) int {
 // ---- wire syntax ------------------------------------------------------------------------------------
 
 func idString(i int) string {
-	if i == 0 {
+	switch {
+	case i == 0:
 		return ""
+	case i <= 26:
+		return string(rune('a' + i - 1))
 	}
-	if i >= 90 {
-		return fmt.Sprintf("probe%d", i)
-	}
-	return string(rune('a' + i - 1))
+	return fmt.Sprintf("op%d", i)
 }
 
 func idIndex(s string) int {
 	if s == "" {
 		return 0
 	}
-	if strings.HasPrefix(s, "probe") {
-		if n, err := strconv.Atoi(s[5:]); err == nil {
+	if strings.HasPrefix(s, "op") {
+		if n, err := strconv.Atoi(s[2:]); err == nil && n > 26 {
 			return n
 		}
 	}
@@ -430,6 +435,7 @@ type player struct {
 	barrier  map[int]bool // id → a duplicate subscription start for it is in flight without a barrier
 	probeNo  int
 	dead     bool // a wait timed out already: do not wait at full length again in this session
+	finishing bool // the session is being ended: the full deadline applies to the cleanup waits
 	ending   string
 }
 
@@ -439,13 +445,27 @@ var timeoutSpent int64 // nanoseconds spent in waits that timed out (whole run)
 func (p *player) waitFor(what string, cond func() bool) bool {
 	d := p.deadline
 	if p.dead {
-		d = d / 10
+		d = d / 20
 	}
 	t0 := time.Now()
 	sleep := 20 * time.Microsecond
 	for {
 		if cond() {
 			return true
+		}
+		// once the client's read loop has ended no message can arrive any more; what the server
+		// still does on its own (Stop calls, deregistration) gets a grace period, not the full wait
+		if !p.finishing && d > 2*time.Second {
+			p.l.mu.Lock()
+			if p.l.closed {
+				if p.l.closedAt.IsZero() {
+					p.l.closedAt = time.Now()
+				}
+				if rest := time.Until(p.l.closedAt.Add(2 * time.Second)); time.Until(t0.Add(d)) > rest {
+					d = time.Since(t0) + rest
+				}
+			}
+			p.l.mu.Unlock()
 		}
 		if time.Since(t0) > d {
 			atomic.AddInt64(&timeoutSpent, int64(time.Since(t0)))
@@ -468,7 +488,6 @@ func (p *player) observedCounts() (conn int, perID map[int]int, execs int) {
 		switch f.Type {
 		case "res", "comp":
 			perID[f.ID]++
-		case "ka":
 		default:
 			conn++
 		}
@@ -522,11 +541,13 @@ func (p *player) sync() {
 		want = append(want, g)
 	}
 	sortInts(want)
-	p.inputs = append(p.inputs, Input{Kind: "sync", Stopped: p.stoppedNow(), Want: want})
-	p.sp.mark(len(p.inputs))
-	for id := range p.barrier {
-		delete(p.barrier, id)
+	var may []int
+	for g := range p.sp.released {
+		may = append(may, g)
 	}
+	sortInts(may)
+	p.inputs = append(p.inputs, Input{Kind: "sync", Stopped: p.stoppedNow(), Want: want, May: may})
+	p.sp.mark(len(p.inputs))
 	p.stats["sync"]++
 }
 
@@ -566,10 +587,13 @@ func (p *player) probe() {
 		p.send(Step{Op: "frame", F: "ping"})
 	} else {
 		p.probeNo++
-		p.send(Step{Op: "frame", F: "start", ID: 90 + p.probeNo, Kind: "query"})
+		p.send(Step{Op: "frame", F: "start", ID: 1000 + p.probeNo, Kind: "query"})
 	}
 	p.stats["probe"]++
 	p.sync()
+	for id := range p.barrier {
+		delete(p.barrier, id)
+	}
 }
 
 func (p *player) play() {
@@ -588,6 +612,12 @@ func (p *player) play() {
 			}
 			if st.F == "start" {
 				// an id is re-used only after everything outstanding for it has been observed
+				if p.sp.closing && !p.caughtUp(st.ID) {
+					// the server was told to close: what is outstanding may never come, and a new
+					// operation on the same id would race with it
+					p.stats["frame-skip:id-busy-while-closing"]++
+					continue
+				}
 				if len(p.sp.perID[st.ID]) > 0 && !p.sp.closing {
 					if _, perID, _ := p.observedCounts(); perID[st.ID] < len(p.sp.perID[st.ID]) {
 						p.waitFor(fmt.Sprintf("outstanding messages of id %d", st.ID), func() bool { return p.caughtUp(st.ID) })
@@ -606,6 +636,12 @@ func (p *player) play() {
 			if p.sp.closing {
 				continue // no source actions once the server was told to close: they race with the close
 			}
+			if st.Src < 0 {
+				// -k: the k-th most recently created source
+				if k := len(p.sp.created) + st.Src; k >= 0 {
+					st.Src = p.sp.created[k]
+				}
+			}
 			g, ok := p.sp.gens[st.Src]
 			if !ok || g.kind != "subscription" || !g.created {
 				p.stats["src-skip:no-such-subscription"]++
@@ -614,6 +650,14 @@ func (p *player) play() {
 			var src *source
 			if !p.waitFor(fmt.Sprintf("the source of subscription %d to be created", st.Src), func() bool { src = p.source(st.Src); return src != nil }) {
 				continue
+			}
+			if src.closed || (st.Op == "ev" && g.stopped) {
+				// nothing to do to this source any more
+			} else if !p.caughtUp(g.id) {
+				// a source action must not race with messages the reader still owes to the same id
+				p.waitFor(fmt.Sprintf("outstanding messages of id %d", g.id), func() bool { return p.caughtUp(g.id) })
+				p.inputs = append(p.inputs, Input{Kind: "syncid", ID: g.id})
+				p.sp.markID(g.id, len(p.inputs))
 			}
 			if st.Op == "end" {
 				if src.closed {
@@ -683,6 +727,7 @@ func (p *player) play() {
 
 // finish ends the connection in the given way and waits for the post-close state to settle.
 func (p *player) finish(ending string, closeSent bool) {
+	p.finishing = true
 	p.stats["ending:"+ending]++
 	readerDone := func() bool { p.l.mu.Lock(); defer p.l.mu.Unlock(); return p.l.closed }
 	switch ending {
@@ -713,6 +758,40 @@ func (p *player) finish(ending string, closeSent bool) {
 	p.ending = ending
 }
 
+// playEarly: the server closes its hijacked connections while this one is being set up. Either the
+// connection was registered already (then it is closed like any other) or it was not (then
+// CloseHijackedConnections has nothing to do with it and the client drops it).
+func (p *player) playEarly() {
+	p.finishing = true
+	done := make(chan struct{})
+	go func() { p.w.api.CloseHijackedConnections(); close(done) }()
+	if !p.waitFor("CloseHijackedConnections to return", func() bool {
+		select {
+		case <-done:
+			return true
+		default:
+			return false
+		}
+	}) {
+		p.anom = append(p.anom, "CloseHijackedConnections did not return")
+	}
+	readerDone := func() bool { p.l.mu.Lock(); defer p.l.mu.Unlock(); return p.l.closed }
+	t0 := time.Now()
+	for !readerDone() && time.Since(t0) < 30*time.Millisecond {
+		time.Sleep(200 * time.Microsecond)
+	}
+	if readerDone() {
+		p.inputs = append(p.inputs, Input{Kind: "sclose"})
+		p.ending = "sclose"
+	} else {
+		p.inputs = append(p.inputs, Input{Kind: "drop"})
+		p.ending = "drop"
+	}
+	p.stats["ending:early-"+p.ending]++
+	p.conn.UnderlyingConn().Close()
+	p.waitFor("the client's read loop to end", readerDone)
+}
+
 func runSession(w *world, sess Session, deadline time.Duration) *Observed {
 	t0 := time.Now()
 	l := &live{sources: map[int]*source{}, slow: sess.SlowStop}
@@ -739,6 +818,10 @@ func runSession(w *world, sess Session, deadline time.Duration) *Observed {
 		return obs
 	}
 	p.conn = conn
+	if !sess.Early {
+		// the history starts once the connection is established on the server side (registered and served)
+		p.waitFor("the connection to be registered", func() bool { return registryLen(w.api) != 0 })
+	}
 	go func() {
 		for {
 			_, b, err := conn.ReadMessage()
@@ -748,6 +831,7 @@ func runSession(w *world, sess Session, deadline time.Duration) *Observed {
 					l.code = ce.Code
 				}
 				l.closed = true
+				l.wireTime = time.Since(t0)
 				l.mu.Unlock()
 				return
 			}
@@ -757,7 +841,11 @@ func runSession(w *world, sess Session, deadline time.Duration) *Observed {
 			l.mu.Unlock()
 		}
 	}()
-	p.play()
+	if sess.Early {
+		p.playEarly()
+	} else {
+		p.play()
+	}
 	// post-close accounting: every created source stopped, connection deregistered
 	p.waitFor("every created source to be stopped and the connection to be deregistered", func() bool {
 		if n := registryLen(w.api); n > 0 {
@@ -783,6 +871,10 @@ func runSession(w *world, sess Session, deadline time.Duration) *Observed {
 	obs.Wire, obs.Execs = l.snapshot()
 	l.mu.Lock()
 	obs.CloseCode = l.code
+	obs.WireTime = l.wireTime
+	if !l.closed {
+		obs.WireTime = time.Since(t0)
+	}
 	for g, s := range l.sources {
 		obs.Stops[g] = int(atomic.LoadInt32(&s.stops))
 	}
